@@ -901,7 +901,7 @@ pub fn gen_c13(seed: u64, _thorough: bool) -> Case {
         case.raw("quit");
         return case;
     }
-    if fam == 5 && seed % 16 >= 8 {
+    if fam == 4 && seed % 16 >= 8 {
         // a time budget together with a depth limit the search cannot reach within the budget
         case.family = "depth-limit-beyond-the-budget".into();
         case.params.policy = match rng.below(3) {
